@@ -59,6 +59,7 @@ type Runner struct {
 	occ      map[string]int
 	inWait   bool
 	noMerge  bool
+	csEvaluated map[string]bool // critical-section clauses evaluated on at least one path
 }
 
 type LoopInfo struct {
